@@ -161,8 +161,10 @@ MUTANTS = [
     # ---- C08
     ("c08-marker-not-removed-first", ["C08"], "catalog/trees.py",
      "            new.binning_file.unlink(missing_ok=True)\n", ""),
-    ("c08-empty-id-list-accepted", ["C08"], "catalog/catalog.py",
-     "    if len(patch_ids) == 0:  # e.g. catalog creation interrupted while writing", "    if False:"),
+    # (since d25ad32 the id list is renamed into place and can no longer be found empty after a crash: the
+    #  acceptance of an empty list alone is unobservable; that mutant was replaced by the revert of the atomic write)
+    ("c08-id-list-not-atomic", ["C08"], "catalog/catalog.py",
+     "        np.sort(patch_ids).tofile(temp_path)\n        temp_path.replace(path)", "        np.sort(patch_ids).tofile(path)"),
     ("c08-results-not-removed-first", ["C08"], "correlation/corrdata.py",
      "                path_prefix.with_suffix(suffix).unlink(missing_ok=True)", "                pass"),
     ("c08-overwrite-keeps-id-list", ["C08"], "catalog/catalog.py",
